@@ -29,7 +29,12 @@ def _gen_worker(job):
         rep.status, rep.reason = "engine_error", f"{type(e).__name__}: {e} | " + traceback.format_exc(limit=4).replace("\n", " / ")[-600:]
         rep.obligations = []
     items = []
+    import z3
     for ob in rep.obligations:
+        if ob.kind != "vacuity" and z3.is_true(ob.goal):
+            # the goal is the literal `true` (a structural check the contract decided in Python on this path): nothing to solve
+            items.append(dict(oid=ob.oid, kind=ob.kind, lineno=ob.lineno, hash="literal-true", smt2="", note=ob.note, literal=True))
+            continue
         text = ob.smt2()
         items.append(dict(oid=ob.oid, kind=ob.kind, lineno=ob.lineno, hash=hashlib.sha1(text.encode()).hexdigest()[:16],
                           smt2=text, note=ob.note))
